@@ -33,6 +33,16 @@ CHECKS = {
             "For each generated program TLC computes the need per limit kind and then the outcome under every limit value 1..need+1 (each kind, and combined) and for host histories of run/reset; the interpreter must agree; recorded traces are validated by XrRuntime (counters exact at every event, every frame counted); stdlib-heavy programs use measured need.",
             "Search permits cannot be hooked add-only, so the search limit is decided by the reference semantics for nth/take_while/skip_until only; xray-defined stdlib functions are covered by the measured (relative) claim.",
             "DESIGN.md 6 C08"),
+    "C11": ("model_checking",
+            "TLA+ permission/effect machine (XrPerm over XrRuntime) enumerated by TLC for all plans x assignments; replay + trace validation",
+            "TLC runs each effect plan (display, debug, now, random/sample/shuffle/choices/distributions, regex, sleep; direct, wrapped, in closures, callbacks, lazy elements, defaults, stdlib wrappers, mixed orders) through XrRuntime's Perm/Effect actions for every enumerated permission assignment (allow/forbid/unset) and predicts the outcome and which injected dependency is touched; the interpreter runs with recording doubles and must agree; every trace (also of the shipped scripts) is validated by XrRuntime: an effect only after its own permission check passed.",
+            "Writer/clock/rng are observed through doubles, regex-compile and sleep through hooks at the effect site; each plan is a hand-written template whose effect sites are known by construction.",
+            "DESIGN.md 6 C11"),
+    "C12": ("exploration",
+            "TLC-walked token soups (XrSoup) + seeded mutations; TLA+ trace acceptors XrCompile (outcome is a function of the text) and XrRuntime (compile is silent)",
+            "Every text (TLC token soups over the grammar alphabet, mutations/splices of shipped scripts and book examples, literal spellings incl. over-long ones, nesting to 64, generated programs) is compiled three times in one process at shuffled positions; the compile/behaviour events are validated by the TLA+ acceptor XrCompile (same text => same outcome and behaviour; a panic or hang has no action) and the resource traces by XrRuntime (nothing between CompileBegin and CompileEnd).",
+            "The text space is sampled; hangs are detected by a 20 s watchdog per compilation.",
+            "DESIGN.md 6 C12"),
 }
 
 NOT_YET = {}
